@@ -25,6 +25,13 @@ theorem nil_is_clean (blocks : Nat) (hasAbort : Bool) (fail : Nat → Bool)
     (flush blocks hasAbort fail).calls = [.create] ++ List.replicate (flushWrites blocks) .write ++ [.close, .update] :=
   flush_ok_clean_aux blocks hasAbort fail h
 
+/-- non-vacuity: the premise of `nil_is_clean` holds for a two-block flush whose only fault hits a call that is
+    never issued (position 12, after Update), and the theorem gives its 12-call log -/
+example : (flush 2 false (fun k => k == 12)).ackOk = true ∧
+    (flush 2 false (fun k => k == 12)).calls =
+      [.create, .write, .write, .write, .write, .write, .write, .write, .write, .write, .close, .update] :=
+  ⟨by decide, (nil_is_clean 2 false (fun k => k == 12) (by decide)).2.2⟩
+
 /-- **Error ⇒ absent**: an error acknowledgement means nothing was committed, and whatever was
     created has been tombstoned (so with an atomic MetaStore.Update no row of the batch can ever
     become visible). -/
@@ -34,6 +41,17 @@ theorem C06_err_means_absent (blocks : Nat) (hasAbort : Bool) (fail : Nat → Bo
     (fail 0 = false → (flush blocks hasAbort fail).tombstoned = true) ∧
     (fail 0 = true → (flush blocks hasAbort fail).calls = [.create]) :=
   flush_err_cleanup_aux blocks hasAbort fail h
+
+/-- non-vacuity: the premise of `C06_err_means_absent` holds for a two-block flush whose Close fails (writer
+    without Abort), with `fail 0 = false`, so the tombstone conclusion is exercised -/
+example : (flush 2 false (fun k => k == 10)).ackOk = false ∧ (fun k => k == 10) 0 = false ∧
+    (flush 2 false (fun k => k == 10)).tombstoned = true :=
+  ⟨by decide, by decide, (C06_err_means_absent 2 false (fun k => k == 10) (by decide)).2.1 (by decide)⟩
+
+/-- non-vacuity: … and for a three-block flush whose CreateFile and MetaStore.Update fail (`fail 0 = true`) -/
+example : (flush 3 true (fun k => k == 0 || k == 12)).ackOk = false ∧ (fun k => k == 0 || k == 12) 0 = true ∧
+    (flush 3 true (fun k => k == 0 || k == 12)).calls = [.create] :=
+  ⟨by decide, by decide, (C06_err_means_absent 3 true (fun k => k == 0 || k == 12) (by decide)).2.2 (by decide)⟩
 
 /-- Committing the flushed file makes exactly its rows visible, exactly once, on any engine that
     reads the same MetaStore (the content model has no engine-local state). -/
